@@ -174,6 +174,8 @@ def build(run):
     run.kani(crate9, [l9], timeout=900)
     crate10, lemma10 = navid_lemma(run)
     run.kani(crate10, [lemma10], timeout=300)
+    crate11, lemma11 = navbraille_lemma(run)
+    run.kani(crate11, [lemma11], timeout=600)
     crate8, lemma8 = marker_lemma(run)
     run.kani(crate8, [lemma8], timeout=600)
     crate7, lemma7 = attach_lemma(run)
@@ -326,6 +328,96 @@ def marker_lemma(run):
                        role=lambda v, o: "non-numeric-marker-attribute-unwrap",
                        covers=["non-numeric marker value reachable", "numeric marker value reachable"],
                        claim="no value of the marker attribute makes the two readers panic")
+
+
+# ======================================================================================================================
+# K-C08-m: get_navigation_braille with a character offset into a leaf: every (leaf text, offset) gives a value or an error -- also for
+#          texts whose characters are not one byte long
+NB_SHIM = r"""
+pub type Result<T> = core::result::Result<T, Error>;
+#[derive(Debug)] pub struct Error;
+macro_rules! bail { ($($t:tt)*) => { return Err(Error) }; }
+#[derive(Clone, Copy, PartialEq, Debug)] pub struct Element { id: u8 }
+pub struct Doc;
+pub struct Root;
+impl Doc { fn root(&self) -> Root { Root } }
+impl Root { fn append_child(&self, _e: Element) {} }
+const TEXTS: [&str; 4] = ["\u{3b1}\u{3b2}\u{3b3}", "12", "\u{3b1}", "x\u{3b1}"];
+static mut FOUND_TEXT: usize = 0;
+static mut FOUND_LEAF: bool = true;
+static mut SET: ([u8; 8], usize, bool) = ([0; 8], 0, false);
+fn name(e: &Element) -> &'static str { if e.id == 0 { if unsafe { FOUND_LEAF } { "mi" } else { "mrow" } } else { "new" } }
+fn is_leaf(e: Element) -> bool { e.id == 0 && unsafe { FOUND_LEAF } }
+fn as_text(_e: Element) -> &'static str { TEXTS[unsafe { FOUND_TEXT }] }
+fn create_mathml_element(_d: &Doc, _n: &str) -> Element { Element { id: 1 } }
+fn copy_mathml(e: Element) -> Element { e }
+fn mml_to_string(_e: &Element) -> String { String::from("m") }
+impl Element {
+    fn set_text(&self, t: &str) { let b = t.as_bytes(); assert!(b.len() <= 8); unsafe { let mut i = 0; while i < b.len() { SET.0[i] = b[i]; i += 1; } SET.1 = b.len(); SET.2 = true; } }
+    fn append_child(&self, _e: Element) {}
+}
+#[cfg(kani)]
+fn char_to_string<T: core::fmt::Display + ?Sized>(v: &T) -> String {
+    assert!(core::mem::size_of_val(v) == 4, "only char -> String is stubbed here");
+    let c: char = unsafe { *(v as *const T as *const char) };
+    match c { '\u{3b1}' => String::from("\u{3b1}"), '\u{3b2}' => String::from("\u{3b2}"), '\u{3b3}' => String::from("\u{3b3}"), '1' => String::from("1"), '2' => String::from("2"), _ => String::from("x") }
+}
+fn arm(new_doc: Doc, found: Element, offset: usize) -> Result<Element> ARM_BLOCK
+fn case(text: usize, offset: usize) -> u8 {
+    unsafe { FOUND_TEXT = text; FOUND_LEAF = true; SET.2 = false; }
+    let r = arm(Doc, Element { id: 0 }, offset);
+    let t = TEXTS[text];
+    let mut n = 0; for _c in t.chars() { n += 1; }
+    if offset == 0 { return if r.is_ok() { 0 } else { 1 }; }
+    if offset >= n { return if r.is_err() { 0 } else { 2 }; }
+    if r.is_err() { return 3; }
+    // the element handed to the braille rules holds exactly the offset-th character
+    let mut k = 0; let mut want = ' ';
+    for c in t.chars() { if k == offset { want = c; } k += 1; }
+    let mut buf = [0u8; 4];
+    let w = want.encode_utf8(&mut buf).as_bytes();
+    let (sb, sl, set) = unsafe { SET };
+    if !set || sl != w.len() { return 4; }
+    let mut i = 0; while i < sl { if sb[i] != w[i] { return 4; } i += 1; }
+    0
+}
+HARNESS(navigation_braille_offset_is_total, 10, [std::string::ToString::to_string => char_to_string]) {
+    let k = sym::below(20);
+    let code = match k {
+CASE_ARMS
+        _ => 0,
+    };
+    cover!(k == 1, "offset 1 into a three-letter Greek leaf reachable");
+    cover!(k == 13, "offset past the end of a one-letter Greek leaf reachable");
+    assert!(code != 1, "offset 0 fails");
+    assert!(code != 2, "an offset past the last character is not reported as an error");
+    assert!(code != 3, "an offset inside the leaf is reported as an error");
+    assert!(code != 4, "the character handed to the braille rules is not the one at the offset");
+}
+"""
+
+
+def api_navbraille(vals=None, out=None):
+    res = mcprobe([("mathml", "<math id='m'><mrow id='r'><mi id='a'>αβγ</mi><mo id='p'>+</mo><mn id='n'>12</mn></mrow></math>"), ("setnav", "a 1"), "navbraille",
+                   ("mathml", "<math id='m'><mi id='a'>α</mi></math>"), ("setnav", "a 1"), "navbraille"])
+    bad = any(r[0] in ("PANIC", "ABORT") for r in res) or res[2][0] != "OK" or res[5][0] != "ERR"
+    return bad, {"script": "set_navigation_node(a, 1) on <mi>alpha beta gamma</mi>; get_navigation_braille (must be the braille of beta); the same on <mi>alpha</mi> (must be an error)", "results": [res[2], res[5]]}
+
+
+def navbraille_lemma(run):
+    itf = slicer.Source.get("src/interface.rs")
+    f = itf.find("fn get_navigation_braille")
+    arm = itf.find_bracketed("Ok ( ( found , offset ) ) => {", within=f)[0]
+    block = arm.text[arm.text.index("{"):]
+    run.uses(slicer.Span(itf, arm.start, arm.end, "interface.rs::get_navigation_braille::Ok((found, offset)) arm"))
+    arms = "\n".join("        %d => case(%d, %d)," % (t * 5 + o, t, o) for t in range(4) for o in range(5))
+    crate = kani_run.Crate("c08navbr", NB_SHIM.replace("ARM_BLOCK", block).replace("CASE_ARMS", arms))
+    run.bound("K-C08-m", "the Ok((found, offset)) arm of get_navigation_braille verbatim; leaf text in {alpha beta gamma, 12, alpha, x alpha} x offset 0..4 (20 solver-selected cases on literals)")
+    run.assume("K-C08-m: sxd_document reduced to (leaf?, text index); set_text records its argument; char -> String stubbed by a table for the characters of the four texts; error text (bail!) not built")
+    return crate, dict(id="K-C08-m.navigation_braille_offset_total", harness="navigation_braille_offset_is_total", api=lambda v, o: api_navbraille(),
+                       role=lambda v, o: "offset-panics-or-wrong-char",
+                       covers=["offset 1 into a three-letter Greek leaf reachable", "offset past the end of a one-letter Greek leaf reachable"],
+                       claim="every (leaf text, character offset) yields Ok with exactly that character or Err past the end -- no panic, also for multi-byte characters")
 
 
 # ======================================================================================================================
